@@ -465,6 +465,13 @@ class App:
 
             req_succeeded = False
 
+            # NOTE: Render the response that was composed by the error
+            #   handler; should that fail as well, fall back to an empty body.
+            try:
+                body, length = self._get_body(resp, env.get('wsgi.file_wrapper'))
+            except Exception:
+                body, length = [], 0
+
         resp_status: str = code_to_http_status(resp.status)
         default_media_type: Optional[str] = self.resp_options.default_media_type
 
